@@ -20,6 +20,8 @@ func checkC12(c *Ctx) {
 	c.Rule("C12/R3", "order statistics read sorted data: Percentile and IQR index their values only after the sample is known sorted or was copied and sorted")
 	c.Rule("C12/R4", "the beta/t path works in the log domain: nothing reachable from the t distribution's CDF/PDF calls math.Gamma (which overflows for the degrees of freedom large samples produce)")
 
+	c.Rule("C12/R5", "returned functions are re-entrant: no closure created in internal/stats writes a variable it captured (an inverse CDF that keeps its bracketing step between calls drifts to ±Inf after enough calls)")
+	c.Rule("C12/R6", "no 0/0 variance: every division by len(x)-1 in internal/stats is reached only when len(x) >= 2 (a singleton's variance is 0, which the t-tests' zero-variance guard turns into an error; NaN would slip through it)")
 	p := mustLoad(c, loadOpts{}, "./internal/stats")
 	p.Funcs("internal/stats")
 	c12TTests(c, p)
@@ -27,6 +29,8 @@ func checkC12(c *Ctx) {
 	c12Dists(c, p)
 	c12Percentile(c, p)
 	c12LogDomain(c, p)
+	c12Closures(c, p)
+	c12LenMinusOne(c, p)
 }
 
 // ufEval evaluates a symbolic float expression with every non-arithmetic call as an uninterpreted function of its
@@ -831,4 +835,126 @@ func c12LogDomain(c *Ctx, p *Prog) {
 	}
 	c.Check(bad == "", R, "t-path:no-gamma", p.pos(roots[0].Pos()), fmt.Sprintf("%d functions reachable from the t distribution; none calls math.Gamma", len(reach)),
 		bad+" on the t distribution's path calls math.Gamma, which overflows for arguments above ~171: the CDF becomes NaN for large degrees of freedom (every t-test on a few hundred samples reports P = NaN)")
+}
+
+func c12Closures(c *Ctx, p *Prog) {
+	const R = "C12/R5"
+	fns := p.Funcs("internal/stats")
+	eff := newEffects(p, fns)
+	n := 0
+	for _, fn := range fns {
+		if fn.Parent() == nil {
+			continue
+		}
+		n++
+		sm := eff.sums[fn]
+		var written []string
+		for i, w := range sm.WritesFree {
+			if w {
+				written = append(written, fn.FreeVars[i].Name())
+			}
+		}
+		c.Check(len(written) == 0, R, fnName(fn)+":captured-writes", p.pos(fn.Pos()), "writes no captured variable",
+			fmt.Sprintf("the function value writes the captured variable(s) %v: state survives from one call to the next, so results depend on how often the same returned function was used before", written))
+	}
+	c.Floor(R, "closures in internal/stats", n, 3)
+}
+
+// lenLowerBound: the largest L such that the dominating branch conditions of b imply len(x) >= L.
+func lenLowerBound(b *ssa.BasicBlock, x ssa.Value) int64 {
+	isLenOf := func(v ssa.Value) bool {
+		call, ok := stripConvInt(v).(*ssa.Call)
+		if !ok {
+			return false
+		}
+		bi, ok := call.Call.Value.(*ssa.Builtin)
+		return ok && bi.Name() == "len" && (call.Call.Args[0] == x || sameValue(call.Call.Args[0], x))
+	}
+	lb := int64(0)
+	facts := factsAt(b)
+	for pass := 0; pass < 3; pass++ {
+		for _, f := range facts {
+			cmp, ok := f.Cond.(*ssa.BinOp)
+			if !ok {
+				continue
+			}
+			op, t := cmp.Op, f.True
+			var k int64
+			switch {
+			case isLenOf(cmp.X):
+				kk, ok := constInt(cmp.Y)
+				if !ok {
+					continue
+				}
+				k = kk
+			case isLenOf(cmp.Y):
+				kk, ok := constInt(cmp.X)
+				if !ok {
+					continue
+				}
+				k = kk
+				// mirror the operator
+				switch op {
+				case token.LSS:
+					op = token.GTR
+				case token.LEQ:
+					op = token.GEQ
+				case token.GTR:
+					op = token.LSS
+				case token.GEQ:
+					op = token.LEQ
+				}
+			default:
+				continue
+			}
+			nb := lb
+			switch {
+			case op == token.LEQ && !t, op == token.GTR && t:
+				nb = k + 1
+			case op == token.LSS && !t, op == token.GEQ && t:
+				nb = k
+			case op == token.EQL && !t && k == lb, op == token.NEQ && t && k == lb:
+				nb = lb + 1
+			case op == token.EQL && t, op == token.NEQ && !t:
+				nb = k
+			}
+			if nb > lb {
+				lb = nb
+			}
+		}
+	}
+	return lb
+}
+
+func c12LenMinusOne(c *Ctx, p *Prog) {
+	const R = "C12/R6"
+	n := 0
+	for _, fn := range p.Funcs("internal/stats") {
+		eachInstr(fn, func(b *ssa.BasicBlock, in ssa.Instruction) {
+			bo, ok := in.(*ssa.BinOp)
+			if !ok || bo.Op != token.QUO || !isFloat(bo.Type()) {
+				return
+			}
+			sub, ok := stripConvInt(bo.Y).(*ssa.BinOp)
+			if !ok || sub.Op != token.SUB {
+				return
+			}
+			if k, ok := constInt(sub.Y); !ok || k != 1 {
+				return
+			}
+			call, ok := stripConvInt(sub.X).(*ssa.Call)
+			if !ok {
+				return
+			}
+			bi, ok := call.Call.Value.(*ssa.Builtin)
+			if !ok || bi.Name() != "len" {
+				return
+			}
+			n++
+			lb := lenLowerBound(b, call.Call.Args[0])
+			c.Check(lb >= 2, R, fmt.Sprintf("%s:div-by-len-1#%d", fnName(fn), n), p.pos(bo.Pos()), "the division by len-1 is reached only for two or more values",
+				fmt.Sprintf("a division by len(x)-1 can be reached with len(x) >= %d only: for a single value it computes 0/0 = NaN, which is not caught by the t-tests' variance == 0 guard, so a one-value sample yields NaN statistics with a nil error", lb))
+		})
+	}
+	c.Floor(R, "divisions by len-1 in internal/stats", n, 1)
 }
